@@ -69,7 +69,7 @@ type refBuilder struct {
 	natives map[util.Uint160]bool
 	// statistics
 	Events, Logged, SkippedFault, SkippedMalformed, SkippedUnknown int
-	SameBlockDeploy                                               []string
+	SameBlockDeploy                                                []string
 }
 
 func newRefBuilder(bc *core.Blockchain) *refBuilder {
